@@ -151,6 +151,14 @@ reg("C16", "exploration",
     "remove=True nothing is called. Sampling.",
     BASE_NOTE + "Unshared graphs and explicit values only, as the statement requires.", "DESIGN.md 3/C16")
 
+reg("C17", "exploration",
+    "Hypothesis-generated type hierarchies x offer multisets decided against an unpruned brute-force enumeration of all chains of distinct applicable offers",
+    "Generated hierarchies (multiple inheritance, ABC registration), offers constructed along drawn paths plus distractors, "
+    "duplicates, cycles, conditional factories (6 kinds) and specificity twins; adapt() / adapt(default) / Supports / AdaptsTo / "
+    "Instance(adapt='yes') results are compared with the brute force for existence, validity, minimal length and single-step "
+    "specificity; every case runs under a watchdog. Sampling.",
+    BASE_NOTE + "Brute force enumerates <= 7! sequences; factories are deterministic.", "DESIGN.md 3/C17")
+
 
 def main():
     props = [json.loads(l) for l in open(os.path.join(ROOT, "properties.jsonl"))]
